@@ -24,7 +24,8 @@ CLANG = "clang++-14"
 GXX = "g++"
 LOWER_FLAGS = ["-O1", "-fno-vectorize", "-fno-slp-vectorize", "-fno-unroll-loops", "-fno-exceptions",
                "-mllvm", "-inline-threshold=100000", "-fno-sanitize=vptr,function", "-fsanitize-trap=all",
-               "-Wno-everything", "-Werror=c++11-narrowing", "-fconstexpr-steps=200000000"]
+               "-Wno-everything", "-Werror=c++11-narrowing", "-fconstexpr-steps=30000000"]
+COMPILE_TIMEOUT = 300
 SAN_UB = "-fsanitize=undefined"
 SAN_WRAP = "-fsanitize=undefined,unsigned-integer-overflow"
 
@@ -99,8 +100,9 @@ def unpack(ct, b):
 
 
 class Kernel:
-    def __init__(self, name, ret, args, body, key=None, mode="ub", family=None, std=None):
+    def __init__(self, name, ret, args, body, key=None, mode="ub", family=None, std=None, native=True):
         self.std = std
+        self.native = native          # False: closed compile-time facts; no native build / translator validation
         self.name = name
         self.ret = ret
         self.args = list(args)        # [(ctype, argname)]
@@ -193,20 +195,23 @@ class Chunk:
         """write, compile to IR; drop out-of-domain kernels to a fixpoint."""
         t0 = time.time()
         san = SAN_WRAP if self.mode == "wrap" else SAN_UB
-        for _ in range(40):
+        for _ in range(16):
             self.write()
-            cmd = [CLANG, "-std=" + self.std, san] + LOWER_FLAGS + self.incflags() + \
+            cmd = [CLANG, "-std=" + self.std, san] + LOWER_FLAGS + ["-ferror-limit=0"] + self.incflags() + \
                   ["-S", "-emit-llvm", self.src, "-o", self.ll]
-            p = subprocess.run(cmd, stdout=subprocess.PIPE, stderr=subprocess.PIPE, universal_newlines=True)
+            try:
+                p = subprocess.run(cmd, stdout=subprocess.PIPE, stderr=subprocess.PIPE, universal_newlines=True,
+                                   timeout=COMPILE_TIMEOUT)
+            except subprocess.TimeoutExpired:
+                self.fatal = "compiler did not finish within %d s (constexpr evaluation?)" % COMPILE_TIMEOUT
+                self.compile_s = time.time() - t0
+                return False
             if p.returncode == 0:
                 break
             # map diagnostics to kernels
-            p2 = subprocess.run([CLANG, "-std=" + self.std, "-fsyntax-only", "-ferror-limit=0", "-Wno-everything", "-Werror=c++11-narrowing", "-fconstexpr-steps=200000000"]
-                                + self.incflags() + [self.src],
-                                stdout=subprocess.PIPE, stderr=subprocess.PIPE, universal_newlines=True)
-            dropped = self.map_diagnostics(p2.stderr)
+            dropped = self.map_diagnostics(p.stderr)
             if not dropped:
-                self.fatal = p2.stderr[-3000:] or p.stderr[-3000:]
+                self.fatal = p.stderr[-3000:]
                 self.compile_s = time.time() - t0
                 return False
         else:
@@ -253,11 +258,15 @@ class Chunk:
                    "-fno-exceptions", "-DAUV_NATIVE"] + self.incflags() + [self.src, "-o", so]
         else:
             san = SAN_WRAP if self.mode == "wrap" else SAN_UB
-            cmd = [CLANG, "-std=" + self.std, "-O1", "-Wno-everything", "-Werror=c++11-narrowing", "-fconstexpr-steps=200000000", "-fPIC", "-shared", "-fno-exceptions", san,
+            cmd = [CLANG, "-std=" + self.std, "-O1", "-Wno-everything", "-Werror=c++11-narrowing", "-fconstexpr-steps=30000000", "-fPIC", "-shared", "-fno-exceptions", san,
                    "-fno-sanitize=vptr,function", "-fsanitize-trap=all", "-DAUV_NATIVE"] + \
                   self.incflags() + [self.src, "-o", so]
         t0 = time.time()
-        p = subprocess.run(cmd, stdout=subprocess.PIPE, stderr=subprocess.PIPE, universal_newlines=True)
+        try:
+            p = subprocess.run(cmd, stdout=subprocess.PIPE, stderr=subprocess.PIPE, universal_newlines=True,
+                               timeout=COMPILE_TIMEOUT)
+        except subprocess.TimeoutExpired:
+            return None, "native build timed out"
         if p.returncode != 0:
             return None, p.stderr[-2000:]
         return so, time.time() - t0
@@ -540,15 +549,17 @@ class Check:
         includes = self.includes if self.includes is not None else std_includes()
         by_mode = {}
         for k in kernels:
-            by_mode.setdefault((k.mode, k.std or self.std), []).append(k)
+            by_mode.setdefault((k.mode, k.std or self.std, k.native), []).append(k)
         chunks = []
-        for (mode, std), ks in sorted(by_mode.items()):
+        for (mode, std, native), ks in sorted(by_mode.items()):
             n = max(1, min(len(ks), (len(ks) + self.chunk_size - 1) // self.chunk_size))
             n = max(n, min(NCPU, len(ks) // 24)) if len(ks) >= 48 else n
             per = (len(ks) + n - 1) // n
             for i in range(0, len(ks), per):
-                chunks.append(Chunk(len(self.chunks) + len(chunks), ks[i:i + per], self.prelude, includes, self.workdir,
-                                    std=std, mode=mode))
+                ch = Chunk(len(self.chunks) + len(chunks), ks[i:i + per], self.prelude, includes, self.workdir,
+                           std=std, mode=mode)
+                ch.native = native
+                chunks.append(ch)
         return chunks
 
     def lower_all(self, kernels, native=True):
@@ -564,7 +575,7 @@ class Check:
         if native:
             ensure_runner()
             t0 = time.time()
-            jobs = [(c, kind) for c in chunks for kind in ("san", "gxx")]
+            jobs = [(c, kind) for c in chunks if getattr(c, "native", True) for kind in ("san", "gxx")]
             with cf.ThreadPoolExecutor(NCPU) as ex:
                 res = list(ex.map(lambda j: j[0].build_native(j[1]), jobs))
             for (c, kind), (so, info) in zip(jobs, res):
@@ -588,6 +599,14 @@ class Check:
     def native_handle(self, name):
         h = self.K[name]
         c = h.chunk
+        if "san" not in c.runners:
+            ensure_runner()
+            for kind in ("san", "gxx"):
+                so, info = c.build_native(kind)
+                if so is not None:
+                    c.runners[kind] = Runner(so)
+                elif kind == "san":
+                    raise Inconclusive("native sanitized build failed: %s" % info)
         return NativeHandle(h.kernel, c.runners["san"], c.runners.get("gxx"))
 
     # ---- translator validation
@@ -632,9 +651,16 @@ class Check:
                 env = {"v!%s!%d" % (k.name, i): (bool(v) if ct_sort(k.args[i][0]) == T.BOOL else v)
                        for i, v in enumerate(p)}
                 try:
-                    ub = smt.evaluate(enc.ub, env)
                     unw = smt.evaluate(enc.unwind, env)
+                    if unw:
+                        continue
+                    ub = smt.evaluate(enc.ub, env)
                     val = smt.evaluate(enc.ret, env) if enc.ret is not None else None
+                except KeyError as e:
+                    if "beyond!" in str(e) or "freeze!" in str(e):
+                        continue
+                    bad.append((name, p, "evaluator exception %r" % (e,)))
+                    break
                 except Exception as e:   # noqa
                     bad.append((name, p, "evaluator exception %r" % (e,)))
                     break
@@ -701,7 +727,7 @@ class Check:
                     if em in texts:
                         continue
                     try:
-                        texts[em] = smt.emit_int([asr], vs) if em == "int" else smt.emit_bv([asr], vs)
+                        texts[em] = smt.emit(em, [asr], vs)
                     except smt.EmitUnsupported:
                         texts[em] = None
                 ob._texts = texts
